@@ -47,8 +47,12 @@ type Input struct {
 	// Coq model describes plain routing).
 	SSLRedirect bool            `json:"ssl_redirect,omitempty"`
 	Objects     []world.ObjJSON `json:"objects"`
-	Requests    []Req           `json:"requests"`
-	Note        string          `json:"note,omitempty"`
+	// Steps: batches of changes applied one after the other after the initial cluster (real
+	// watchers -> partial syncs -> HAProxyUpdate); the oracle and the model are applied to the
+	// rendered state after every step.
+	Steps    [][]world.ChangeJSON `json:"steps,omitempty"`
+	Requests []Req                `json:"requests"`
+	Note     string               `json:"note,omitempty"`
 }
 
 var hostPool = []string{"a.example", "b.example", "sub.a.example", "c.example", ""}
@@ -82,7 +86,112 @@ func gen(rng *rand.Rand, search bool) Input {
 	objs = addPods(rng, objs)
 	in.Objects = world.EncodeObjs(objs)
 	in.Requests = genRequests(rng, objs)
+	if rng.Intn(5) < 2 {
+		// a history: drain-support on in 3 of 4
+		in.Drain = rng.Intn(4) > 0
+		in.Steps = world.EncodeHistory(genSteps(rng, objs, 1+rng.Intn(3)))
+	}
 	return in
+}
+
+// genSteps generates n steps that keep ingresses and classes as they are and change what a
+// running cluster changes all the time: readiness flips with an unchanged address set,
+// scale up / down, terminating flips of pods, Endpoints deleted / re-created, service port
+// changes (port order, targetPort). Each step is one batch of 1..2 changes.
+func genSteps(rng *rand.Rand, objs []client.Object, n int) [][]pipeline.Change {
+	st := world.NewState(objs)
+	var steps [][]pipeline.Change
+	for len(steps) < n {
+		var batch []pipeline.Change
+		for k, m := 0, 1+rng.Intn(2); k < m; k++ {
+			if ch := genStepChange(rng, st); ch != nil {
+				batch = append(batch, *ch)
+				st.Apply([]pipeline.Change{*ch})
+			}
+		}
+		if len(batch) == 0 {
+			break
+		}
+		steps = append(steps, batch)
+	}
+	return steps
+}
+
+func genStepChange(rng *rand.Rand, st *world.State) *pipeline.Change {
+	cur := st.Objects()
+	var eps []*api.Endpoints
+	var pods []*api.Pod
+	var svcs []*api.Service
+	for _, o := range cur {
+		switch x := o.(type) {
+		case *api.Endpoints:
+			eps = append(eps, x)
+		case *api.Pod:
+			pods = append(pods, x)
+		case *api.Service:
+			svcs = append(svcs, x)
+		}
+	}
+	for try := 0; try < 20; try++ {
+		switch k := rng.Intn(10); {
+		case k < 5 && len(eps) > 0: // readiness flip, same address set
+			e := eps[rng.Intn(len(eps))].DeepCopy()
+			if len(e.Subsets) == 0 {
+				continue
+			}
+			ss := &e.Subsets[rng.Intn(len(e.Subsets))]
+			if len(ss.Addresses) > 0 && (len(ss.NotReadyAddresses) == 0 || rng.Intn(2) == 0) {
+				i := rng.Intn(len(ss.Addresses))
+				ss.NotReadyAddresses = append(ss.NotReadyAddresses, ss.Addresses[i])
+				ss.Addresses = append(ss.Addresses[:i:i], ss.Addresses[i+1:]...)
+			} else if len(ss.NotReadyAddresses) > 0 {
+				i := rng.Intn(len(ss.NotReadyAddresses))
+				ss.Addresses = append(ss.Addresses, ss.NotReadyAddresses[i])
+				ss.NotReadyAddresses = append(ss.NotReadyAddresses[:i:i], ss.NotReadyAddresses[i+1:]...)
+			} else {
+				continue
+			}
+			return &pipeline.Change{Op: pipeline.Update, Obj: e}
+		case k < 7 && len(eps) > 0: // scale up / down, or the Endpoints object goes away
+			e := eps[rng.Intn(len(eps))].DeepCopy()
+			if rng.Intn(8) == 0 {
+				return &pipeline.Change{Op: pipeline.Delete, Obj: e}
+			}
+			if len(e.Subsets) == 0 {
+				continue
+			}
+			ss := &e.Subsets[rng.Intn(len(e.Subsets))]
+			if len(ss.Addresses) > 0 && rng.Intn(2) == 0 {
+				ss.Addresses = ss.Addresses[:len(ss.Addresses)-1]
+			} else {
+				ss.Addresses = append(ss.Addresses, api.EndpointAddress{IP: fmt.Sprintf("10.210.%d.%d", rng.Intn(3), 1+rng.Intn(200))})
+			}
+			return &pipeline.Change{Op: pipeline.Update, Obj: e}
+		case k < 9 && len(pods) > 0: // terminating flip
+			p := pods[rng.Intn(len(pods))].DeepCopy()
+			if p.DeletionTimestamp == nil {
+				t := world.Stamp(100000)
+				p.DeletionTimestamp = &t
+				p.Finalizers = []string{"verif/hold"}
+			} else if rng.Intn(3) == 0 {
+				return &pipeline.Change{Op: pipeline.Delete, Obj: p}
+			} else {
+				p.DeletionTimestamp = nil
+			}
+			return &pipeline.Change{Op: pipeline.Update, Obj: p}
+		case len(svcs) > 0: // service port change
+			s := svcs[rng.Intn(len(svcs))].DeepCopy()
+			if len(s.Spec.Ports) > 1 && rng.Intn(2) == 0 {
+				s.Spec.Ports[0], s.Spec.Ports[1] = s.Spec.Ports[1], s.Spec.Ports[0]
+			} else if len(s.Spec.Ports) > 0 && s.Spec.Ports[0].TargetPort.IntValue() > 0 {
+				s.Spec.Ports[0].TargetPort = intstr.FromInt(s.Spec.Ports[0].TargetPort.IntValue() + 1)
+			} else {
+				continue
+			}
+			return &pipeline.Change{Op: pipeline.Update, Obj: s}
+		}
+	}
+	return nil
 }
 
 // addPods adds, for about half of the services that have Endpoints, pods whose
@@ -247,7 +356,9 @@ type runResult struct {
 
 var runSeq int
 
-func run(o *hx.Opts, in Input) runResult {
+// run returns one result per stage: stage 0 = the initial cluster (a full sync), stage i =
+// after step i of the history (whatever the real code decides: partial syncs, no reload ...).
+func run(o *hx.Opts, in Input) []runResult {
 	runSeq++
 	dir := filepath.Join(o.Out, "pipe", fmt.Sprintf("p%d", runSeq))
 	p := pipeline.New(pipeline.Options{Dir: dir, WatchWithoutClass: in.WatchWithoutClass, DefaultService: in.DefaultService})
@@ -261,9 +372,22 @@ func run(o *hx.Opts, in Input) runResult {
 		data["drain-support"] = "true"
 	}
 	all := append([]client.Object{p.GlobalConfigMap(data)}, objs...)
+	err := p.Seed(all...)
+	stages := []runResult{observe(p, in, objs, err)}
+	state := world.NewState(objs)
+	for _, step := range world.DecodeHistory(in.Steps) {
+		err := p.Apply(step)
+		state.Apply(step)
+		stages = append(stages, observe(p, in, state.Objects(), err))
+	}
+	return stages
+}
+
+// observe reads what is on disk now and routes the requests through it.
+func observe(p *pipeline.Pipeline, in Input, objs []client.Object, applyErr error) runResult {
 	res := runResult{objs: objs, valid: map[string]bool{}}
-	if err := p.Seed(all...); err != nil {
-		res.problems = append(res.problems, "HAProxyUpdate: "+err.Error())
+	if applyErr != nil {
+		res.problems = append(res.problems, "HAProxyUpdate: "+applyErr.Error())
 		return res
 	}
 	for _, ob := range objs {
@@ -548,6 +672,18 @@ func corpus() []Input {
 		world.Pod("ns1", "svc3-t1", "svc3", "10.0.1.2", 8002, true),
 		world.Ingress("ns1", "ing1", 10, world.IngRule{Host: "a.example", Paths: []world.IngPath{
 			{Path: "/", Type: "Prefix", Service: "svc1", PortNum: 80}, {Path: "/n", Type: "Prefix", Service: "svc3", PortNum: 80}}})))
+	// history: readiness flips with an unchanged address set under drain-support (ready -> not ready -> ready)
+	{
+		svc := world.Service("ns1", "svc1", world.SvcPort{Name: "http", Port: 80, TargetPort: intstr.FromInt(8080)})
+		ep0 := world.Endpoints("ns1", "svc1", world.EpPort{Name: "http", Port: 8080, Ready: []string{"10.0.0.1", "10.0.0.2"}})
+		ep1 := world.Endpoints("ns1", "svc1", world.EpPort{Name: "http", Port: 8080, Ready: []string{"10.0.0.1"}, NotReady: []string{"10.0.0.2"}})
+		h := mk("history: an address moves to notReadyAddresses and back, same address set (drain-support on)", "", true,
+			[]Req{{false, "a.example", "/"}},
+			svc, ep0,
+			world.Ingress("ns1", "ing1", 10, world.IngRule{Host: "a.example", Paths: []world.IngPath{{Path: "/", Type: "Prefix", Service: "svc1", PortNum: 80}}}))
+		h.Steps = world.EncodeHistory([][]pipeline.Change{{{Op: pipeline.Update, Obj: ep1}}, {{Op: pipeline.Update, Obj: ep0}}})
+		out = append(out, h)
+	}
 	// witness of C03_maps_agree_refuted: /api ImplementationSpecific and /api Prefix on one host (plus / Prefix).
 	// The request /api is ambiguous (left unjudged: C04 leaves the order of equal-length rules
 	// unspecified); the real maps answer the begin rule (svc1), like the model of the generator.
@@ -609,7 +745,7 @@ func main() {
 			_ = os.WriteFile(filepath.Join(d, fmt.Sprintf("builtin-%02d.json", i+1)), b, 0o644)
 		}
 	}
-	res := hx.NewResult("C03", "generated clusters over shared pools (3 namespaces, 4 hosts + the default host, 9 paths with case / trailing-slash variants, 4 services x 2 ports incl. a port-number/targetPort clash, ready / not-ready endpoints, terminating pods, tls blocks, default backends, valid and invalid ingress classes, equal creation stamps), each with up to 37 requests over declared hosts/paths and neighbours, both schemes; non-trivial = at least two declarations of one host or a duplicated (host,path,type); distinct by the canonical JSON of objects+requests")
+	res := hx.NewResult("C03", "generated clusters over shared pools (3 namespaces, 4 hosts + the default host, 9 paths with case / trailing-slash variants, 4 services x 2 ports incl. a port-number/targetPort clash, ready / not-ready endpoints, terminating pods, tls blocks, default backends, valid and invalid ingress classes, equal creation stamps), each with up to 37 requests over declared hosts/paths and neighbours, both schemes; 2 in 5 inputs continue as a HISTORY of 1..3 incremental steps through the real watchers (readiness flips with an unchanged address set, scale up/down, terminating flips, Endpoints deleted, service port order / targetPort changes; drain-support on in 3 of 4) and are judged again after every step; non-trivial = at least two declarations of one host or a duplicated (host,path,type); distinct by the canonical JSON of objects+requests")
 	cw := hx.NewCaseWriter(o, res, "From HI Require Import Corr.Corr_C03.", "rcase", 25)
 	var inputs []Input
 	if o.Replay != "" {
@@ -619,64 +755,77 @@ func main() {
 	} else {
 		inputs = append(inputs, corpus()...)
 		inputs = append(inputs, loadCorpusDir()...)
-		n := o.Count(400, 3000)
+		n := o.Count(320, 2400)
 		for i := 0; i < n; i++ {
 			inputs = append(inputs, gen(rng, o.Search))
 		}
 	}
 	for _, in := range inputs {
-		rr := run(o, in)
+		stages := run(o, in)
 		canon, _ := json.Marshal(in)
-		cl := specCluster(in, rr)
-		nontrivial := cl.nontrivial()
-		res.Seen(string(canon), nontrivial)
-		res.Count(fmt.Sprintf("ingresses=%d", len(cl.ings)))
-		res.Count(fmt.Sprintf("valid_ingresses=%d", cl.validCount()))
-		res.Count(fmt.Sprintf("requests=%d", len(in.Requests)))
-		if nontrivial {
-			res.Count("nontrivial")
-		}
-		for _, p := range rr.problems {
-			res.Count("problem")
-			res.Fail(hx.Failure{Key: "C03/evaluator-problem", What: p, Input: in})
-		}
-		if len(rr.observed) != len(in.Requests) {
-			continue
-		}
-		// oracle: the property read directly on the objects
-		fails := 0
-		var keptReqs []Req
-		var keptObs []Observed
-		for i, rq := range in.Requests {
-			exp := cl.route(rq)
-			ob := rr.observed[i]
-			if exp.Ambiguous {
-				res.Count("skipped_ambiguous_prefix_begin_tie")
+		res.Count(fmt.Sprintf("steps=%d", len(in.Steps)))
+		for si, rr := range stages {
+			stage := ""
+			if si > 0 {
+				stage = fmt.Sprintf(" [after step %d of %d]", si, len(in.Steps))
+				res.Count("stages_after_a_step")
+			}
+			cl := specCluster(in, rr)
+			nontrivial := cl.nontrivial()
+			res.Seen(fmt.Sprintf("%s#%d", canon, si), nontrivial)
+			res.Count(fmt.Sprintf("ingresses=%d", len(cl.ings)))
+			res.Count(fmt.Sprintf("valid_ingresses=%d", cl.validCount()))
+			res.Count(fmt.Sprintf("requests=%d", len(in.Requests)))
+			if nontrivial {
+				res.Count("nontrivial")
+			}
+			for _, p := range rr.problems {
+				res.Count("problem")
+				res.Fail(hx.Failure{Key: "C03/evaluator-problem", What: p + stage, Input: in})
+			}
+			if len(rr.observed) != len(in.Requests) {
 				continue
 			}
-			keptReqs = append(keptReqs, rq)
-			keptObs = append(keptObs, ob)
-			res.OracleChecks++
-			res.Count("verdict_" + ob.Verdict)
-			res.Count("expect_" + exp.Kind)
-			if ok, what := exp.agrees(ob); !ok {
-				fails++
-				if fails <= 3 {
-					key := cl.classify(rq, exp, ob)
-					res.Count("oracle_fail_" + key)
-					res.Fail(hx.Failure{Key: "C03/" + key, What: fmt.Sprintf("%s request %v: %s", in.Note, rq, what), Input: in,
-						Observed: ob, Expected: exp})
+			// oracle: the property read directly on the objects as they are now
+			fails := 0
+			var keptReqs []Req
+			var keptObs []Observed
+			for i, rq := range in.Requests {
+				exp := cl.route(rq)
+				ob := rr.observed[i]
+				if exp.Ambiguous {
+					res.Count("skipped_ambiguous_prefix_begin_tie")
+					continue
+				}
+				keptReqs = append(keptReqs, rq)
+				keptObs = append(keptObs, ob)
+				res.OracleChecks++
+				res.Count("verdict_" + ob.Verdict)
+				res.Count("expect_" + exp.Kind)
+				if ok, what := exp.agrees(ob); !ok {
+					fails++
+					if fails <= 3 {
+						key := cl.classify(rq, exp, ob)
+						if si > 0 && key == "route-mismatch" {
+							key = "route-mismatch-after-incremental-step"
+						}
+						res.Count("oracle_fail_" + key)
+						res.Fail(hx.Failure{Key: "C03/" + key, What: fmt.Sprintf("%s%s request %v: %s", in.Note, stage, rq, what), Input: in,
+							Observed: ob, Expected: exp})
+					}
 				}
 			}
-		}
-		res.Sample(5, map[string]interface{}{"note": in.Note, "default_service": in.DefaultService, "drain": in.Drain,
-			"objects": len(in.Objects), "requests": len(in.Requests), "first_request": in.Requests[0], "observed": rr.observed[0]})
-		if !o.Search && len(keptReqs) > 0 && !in.SSLRedirect {
-			in, rr := in, rr
-			judged := in
-			judged.Requests = keptReqs
-			rr.observed = keptObs
-			cw.Add(func(id int) string { return coqCase(id, judged, rr) }, in)
+			if si == 0 {
+				res.Sample(5, map[string]interface{}{"note": in.Note, "default_service": in.DefaultService, "drain": in.Drain,
+					"objects": len(in.Objects), "steps": len(in.Steps), "requests": len(in.Requests), "first_request": in.Requests[0], "observed": rr.observed[0]})
+			}
+			if !o.Search && len(keptReqs) > 0 && !in.SSLRedirect {
+				in, rr := in, rr
+				judged := in
+				judged.Requests = keptReqs
+				rr.observed = keptObs
+				cw.Add(func(id int) string { return coqCase(id, judged, rr) }, in)
+			}
 		}
 	}
 	cw.Flush()
